@@ -204,6 +204,103 @@ func volVerdict(mdl *Model, p volProgram, ops []cop, finals []*Node) (string, er
 	return "", nil
 }
 
+
+// conditional commands against a key that one connection creates and deletes in a loop: whatever the
+// interleaving, every reply must be one the sequential model can give in SOME state the key can be in.
+// q is created only by the toggler's RPUSH q x (cmd_push_spec / cmd_push_missing in PropC03.v: RPUSHX and
+// LPUSHX answer 0 on a missing key and length+1 >= 2 on a list; they never create a key), so:
+//   RPUSHX/LPUSHX q y never answers 1; LINSERT q BEFORE x y answers 0 (missing) or >= 2 (x is always there);
+//   the toggler's RPUSH always answers 1 and its DEL always 1.
+func c08Conditional(cfg runCfg, res *Result, srv *Server, round int) error {
+	const nPushers = 6
+	conns := make([]*Conn, nPushers+2)
+	var err error
+	for i := range conns {
+		if conns[i], err = dial(srv.Port); err != nil {
+			return err
+		}
+		defer conns[i].Close()
+	}
+	conns[nPushers+1].Do(3*time.Second, bs("FLUSHALL")...)
+	var stop int32
+	var mu sync.Mutex
+	why := ""
+	total := 0
+	fail := func(s string) {
+		mu.Lock()
+		if why == "" {
+			why = s
+		}
+		mu.Unlock()
+		atomic.StoreInt32(&stop, 1)
+	}
+	var wg sync.WaitGroup
+	deadline := time.Now().Add(1200 * time.Millisecond)
+	wg.Add(1)
+	go func() {
+		defer wg.Done()
+		n := 0
+		for atomic.LoadInt32(&stop) == 0 && time.Now().Before(deadline) {
+			r, err := conns[nPushers].Do(4*time.Second, bs("RPUSH", "q", "x")...)
+			if err != nil {
+				fail("the toggler got no reply to RPUSH q x")
+				return
+			}
+			if r.Int != 1 {
+				fail(fmt.Sprintf("RPUSH q x on the key this connection had just deleted answered %s: somebody else created q, but RPUSHX/LPUSHX/LINSERT never create a key", r.String()))
+				return
+			}
+			if r, err = conns[nPushers].Do(4*time.Second, bs("DEL", "q")...); err != nil || r.Int != 1 {
+				fail(fmt.Sprintf("DEL q right after this connection's RPUSH q x answered %v", r))
+				return
+			}
+			n += 2
+		}
+		mu.Lock()
+		total += n
+		mu.Unlock()
+	}()
+	for p := 0; p < nPushers; p++ {
+		wg.Add(1)
+		go func(p int) {
+			defer wg.Done()
+			cmds := [][]string{{"RPUSHX", "q", "y"}, {"LPUSHX", "q", "y"}, {"LINSERT", "q", "BEFORE", "x", "y"}}
+			n := 0
+			for atomic.LoadInt32(&stop) == 0 && time.Now().Before(deadline) {
+				a := cmds[(p+n)%len(cmds)]
+				r, err := conns[p].Do(4*time.Second, bs(a...)...)
+				if err != nil {
+					fail(fmt.Sprintf("no reply to %v", a))
+					return
+				}
+				if r.Kind != ':' || r.Int == 1 || r.Int < 0 {
+					fail(fmt.Sprintf("%v answered %s while another connection creates (RPUSH q x) and deletes q in a loop: no state of q gives that reply (missing: 0, a list: its new length >= 2)", a, r.String()))
+					return
+				}
+				n++
+			}
+			mu.Lock()
+			total += n
+			mu.Unlock()
+		}(p)
+	}
+	wg.Wait()
+	res.Histories++
+	res.Steps += total
+	res.CmdHist["rpushx"] += total / 4
+	res.Extra["conditional_commands"] = toInt(res.Extra["conditional_commands"]) + total
+	if why != "" {
+		os.MkdirAll(cfg.replayDir, 0o755)
+		path := filepath.Join(cfg.replayDir, fmt.Sprintf("C08-seed%d-cond%d.json", cfg.seed, round))
+		b, _ := json.MarshalIndent(map[string]any{"property": "C08", "kind": "conditional", "seed": cfg.seed, "why": why,
+			"how": "one connection loops RPUSH q x / DEL q, six connections loop RPUSHX q y, LPUSHX q y, LINSERT q BEFORE x y for 1.2 s; replies are checked against the replies the sequential model can give"}, "", " ")
+		os.WriteFile(path, b, 0o644)
+		res.Mismatches = append(res.Mismatches, &Mismatch{Index: -1, Op: "conditional commands under a create/delete loop", Why: why})
+		res.Replays = append(res.Replays, path)
+	}
+	return nil
+}
+
 func c08Volume(cfg runCfg, res *Result, srv *Server, mdl *Model, g *Gen) error {
 	rounds, nMut := 4, 2500
 	if cfg.tier == "thorough" {
@@ -245,6 +342,15 @@ func c08Volume(cfg runCfg, res *Result, srv *Server, mdl *Model, g *Gen) error {
 	}
 	res.Extra["volume_rounds"] = rounds
 	res.Extra["volume_commands"] = total
+	crounds := 2
+	if cfg.tier == "thorough" {
+		crounds = 20
+	}
+	for r := 0; r < crounds && len(res.Mismatches) < 3; r++ {
+		if err := c08Conditional(cfg, res, srv, r); err != nil {
+			return err
+		}
+	}
 	return nil
 }
 
